@@ -1,2 +1,12 @@
 import SpoxModel.Props.C03
 /-! `#print axioms` for every property theorem of C03; parsed by ./check. -/
+#print axioms C03.generated_good
+#print axioms C03.inputs_exact
+#print axioms C03.outputs_exact
+#print axioms C03.inputs_dropped
+#print axioms C03.inputs_dropped_counterexample
+#print axioms C03.missing_input_keyerror
+#print axioms C03.non_argument_typeerror
+#print axioms C03.non_var_output_typeerror
+#print axioms C03.valid_request_builds
+#print axioms C03.discover_all_arguments_spec
